@@ -995,6 +995,18 @@ def check_C06(tier):
         for bits in ([64, 127] if quick else [64, 65, 80, 127]):
             jobs.append(sl.job(n, len(jobs) + 1, "depth", "qs:%d:%d" % (qid, bits + 1000), depth=qd, cfg=sound_cfg(bits, True), iiddepth=2,
                                prefill="deeper"))
+    # deeper than TLC's minimax trees reach: on sparse roots the plain alpha-beta search (every switch off - validated against
+    # Minimax above at depths 1-4) is the reference for the other combinations at depths 5 and 6
+    dmeta = {}
+    dsparse = [f for f in sparse_fens() if int(f.split()[4]) <= 80][:(10 if quick else 48)]
+    for k, f in enumerate(dsparse):
+        pos = fenspec.fen_to_state(f)
+        node = {"pos": pos, "root": pos, "path": [], "kinds": [], "legal": []}
+        for d in ((5,) if quick else (5, 6)):
+            did = 200000 + 10 * k + d
+            dmeta[did] = {"pos": pos, "d": d}
+            for bits in ([0, 1, 2, 16, 32, 64, 127] + [rng.randrange(128)] if quick else [0] + sorted(rng.sample(range(1, 128), 31))):
+                jobs.append(sl.job(node, len(jobs) + 1, "depth", "deep:%d:%d" % (did, bits), depth=d, cfg=sound_cfg(bits, False), iiddepth=2))
     # expected values: TLC evaluates Minimax
     cfg = 'INIT Init\nNEXT Next\nCONSTANTS\n  ItemsFile = "items.ndjson"\n  Chunks = 64\nINVARIANT Out\nCHECK_DEADLOCK FALSE\n'
     txt = "".join(json.dumps(i, separators=(",", ":")) + "\n" for i in items)
@@ -1017,6 +1029,7 @@ def check_C06(tier):
         key = "C06|%s|%s" % (kind, sig)
         ck.disc_count[key] = ck.disc_count.get(key, 0) + 1
     qsvals = {}
+    deepvals = {}
     clamped = set()      # searches during which a game-phase sum above the maximum was cut down (hook): the known drift may act
     ncmp = 0
     for r in recs:
@@ -1027,6 +1040,11 @@ def check_C06(tier):
             continue
         if r["error"]:
             disc("search-fails", "search-fails", r["fen"], r["error"], j)
+            continue
+        if kind == "deep":
+            deepvals.setdefault(iid, {}).setdefault(r["value"], []).append(bits)
+            if r.get("phase_clamps", 0) > 0:
+                clamped.add(iid)
             continue
         if kind == "qs":
             qsvals.setdefault(iid, {}).setdefault(r["value"], []).append(bits)
@@ -1048,6 +1066,14 @@ def check_C06(tier):
                 disc("best-move-does-not-attain-value", "minimax/best-move" + tag, r["fen"],
                      {"depth": j["depth"], "best": fenspec.mv_uci(r["best"]), "value": r["value"],
                       "moves_attaining": [fenspec.mv_uci(m) for m in want["bestMoves"]], "switches_on": on}, j)
+    for did, byval in deepvals.items():
+        ncmp += 1
+        ref = [v for v, bs in byval.items() if 0 in bs]
+        if len(byval) > 1 and ref:
+            it = dmeta[did]
+            disc("value-not-minimax", "minimax/deep" + ("/game-phase-drift-possible" if did in clamped else ""), sl.fen_of(it["pos"]),
+                 {"depth": it["d"], "plain_alpha_beta": ref[0],
+                  "others": {str(v): [[n for i, n in enumerate(sl.SOUND) if b >> i & 1] for b in bs[:3]] for v, bs in byval.items() if v != ref[0]}}, None)
     for iid, byval in qsvals.items():
         ncmp += 1
         if len(byval) > 1:
